@@ -169,7 +169,13 @@ def classify_case(ctx, case, via, contracts, index=0):
                 outcome['row_factory'] = True
             # a threshold is a number: the caller may hand over an int or a numpy scalar
             outcome['threshold_form'] = index % 3
-            cl.classify_intervals(connection, data.num_form(case['sthr'], index), data.num_form(case['jthr'], index // 3 + 1))
+            if index % 7 == 5:
+                # the caller has logging configured at DEBUG
+                outcome['debug_logging'] = True
+                with data.library_logging('DEBUG'):
+                    cl.classify_intervals(connection, data.num_form(case['sthr'], index), data.num_form(case['jthr'], index // 3 + 1))
+            else:
+                cl.classify_intervals(connection, data.num_form(case['sthr'], index), data.num_form(case['jthr'], index // 3 + 1))
         except Exception as exc:  # pylint: disable=broad-except
             connection.row_factory = None
             outcome['classify_exception'] = core.describe_exception(exc)
@@ -236,6 +242,8 @@ def check_case(ctx, prop, case, via, contracts, index=0):
     rec.hit('runs-via-' + via)
     if outcome.get('row_factory'):
         rec.hit('function-runs-on-a-connection-with-a-row-factory')
+    if outcome.get('debug_logging'):
+        rec.hit('function-runs-with-logging-at-debug')
     if via == 'function' and isinstance(data.num_form(case['jthr'], index // 3 + 1), int):
         rec.hit('function-runs-with-an-int-jump-threshold')
     if outcome.get('verbosity'):
